@@ -130,7 +130,7 @@ pub fn check(ctx: &Ctx) -> i32 {
         eprintln!("{}", f.summary);
         report.violations.push(write_replay_with(ctx, "accept", &bytes, &f, fun_case_json(&c)));
     } else {
-        let n2 = ctx.tier.pick(400, 8000);
+        let n2 = ctx.tier.pick(800, 8000);
         let run2 = |b: &[u8]| {
             let c = decode(ctx, b);
             run_reject(ctx, &c.prog, &c.tuples)
